@@ -55,6 +55,9 @@ var (
 	profP4  = profile{name: "P4-invalid-byte-0xFF", m: map[rune]rune{'c': 0xE000}, input: []rune{'a', 'b', 'c'}, enc: map[rune]string{0xE000: "\xff"}}
 	profP5  = profile{name: "P5-truncated-E2-82", m: map[rune]rune{'c': 0xE000}, input: []rune{'a', 'b', 'c'}, enc: map[rune]string{0xE000: "\xe2\x82"}}
 	profP34 = profile{name: "P34-U+FFFD-pattern-letter+0xFF-input", m: map[rune]rune{'b': 0xFFFD, 'c': 0xE000}, input: []rune{'a', 'b', 'c'}, enc: map[rune]string{0xE000: "\xff"}}
+	// punctuation whose codes differ by 0x20 like the two cases of a letter ([ and {, @ and `): must never be taken for a case pair
+	profPP  = profile{name: "PP-punctuation-pairs [ { \"", m: map[rune]rune{'a': '[', 'b': '{', 'c': '"'}, input: []rune{'a', 'b', 'c'}}
+	profPQ  = profile{name: "PQ-punctuation-pairs @ ` ~", m: map[rune]rune{'a': '@', 'b': '`', 'c': '~'}, input: []rune{'a', 'b', 'c'}}
 	profP45 = profile{name: "P45-é+0xFF", m: map[rune]rune{'a': 'é', 'c': 0xE000}, input: []rune{'a', 'b', 'c'}, enc: map[rune]string{0xE000: "\xff"}}
 	profGk  = profile{name: "P7-greek-mixedcase", m: map[rune]rune{'a': 'δ', 'B': 'Δ', 'b': 'ж'}, input: []rune{'a', 'B', 'b'}}
 )
@@ -114,7 +117,10 @@ func runSpecCheck(c *Ctx, rtl bool) {
 	var coreS5, coreS6 []Pat
 	coreS5 = coreFamily("CORE-S", grammarCoreS(), 5)
 	if thorough {
-		coreS6 = coreFamily("CORE-S", grammarCoreS(), 6)
+		// size 6 on the full CORE-S grammar is ~1.2e7 trees (43 GB when materialised: the first thorough run was
+		// ended by the kernel's OOM killer); a reduced grammar (5 leaves, 3 quantifiers) reaches size 6 with 4.1e5
+		coreS6 = coreFamily("CORE-S(reduced: a b . $ \\1; * +? ?)", &grammar{leaves: []*Node{lit('a'), lit('b'), anyc(), asrt('$'), {K: KRef, Cap: 1}},
+			quants: []quant{{0, -1, false}, {1, -1, true}, {0, 1, false}}, c01: true, caps: true, atomics: true, looks: true, condRef: true}, 6)
 	}
 	named := coreFamily("NAMED", &grammar{leaves: append(coreLeaves("^$G", true), &Node{K: KRef, Name: "n"}), quants: quantsAll[:6], c01: true, caps: true, named: true, atomics: true, condRef: true}, 4)
 	condexp := coreFamily("CONDEXP", &grammar{leaves: coreLeaves("$G", true), quants: []quant{{0, -1, false}, {0, 1, true}}, c01: true, caps: true, condExp: true}, 5)
@@ -211,7 +217,7 @@ func runSpecCheck(c *Ctx, rtl bool) {
 		add("LOOP3 full", loop3Family(true), "", profP0, 6, true)
 		add("LOOK", lookF, "", profP0, 5, true)
 		add("LOOP", loopF, "", profP0, 6, true)
-		add("CORE-S<=6", coreS6, "", profP0, 4, true)
+		add("CORE-S<=6 reduced grammar", coreS6, "", profP0, 4, true)
 	}
 
 	var patsTotal, points, matchedTotal int64
